@@ -330,7 +330,7 @@ func (self *Analyzer) listLiteralExpression(node pAst.ListLiteralExpression) ast
 		valExpression := self.expression(val)
 		newValues = append(newValues, valExpression)
 
-		if err := self.TypeCheck(valExpression.Type(), listType, TypeCheckOptions{}); err != nil && listType.Kind() != ast.AnyTypeKind {
+		if err := self.TypeCheck(valExpression.Type(), listType, TypeCheckOptions{AllowFunctionTypes: true}); err != nil && listType.Kind() != ast.AnyTypeKind {
 			self.diagnostics = append(self.diagnostics, err.GotDiagnostic)
 			if err.ExpectedDiagnostic != nil {
 				self.diagnostics = append(self.diagnostics, *err.ExpectedDiagnostic)
